@@ -49,7 +49,7 @@ fn main() {
       let nshards: usize = arg(&args, "--nshards").unwrap().parse().unwrap();
       let start: usize = arg(&args, "--start").unwrap().parse().unwrap();
       let fl = arg(&args, "--flavour").unwrap_or("chk");
-      worker_main(prop.as_ref(), tier, seed, shard, nshards, start, arg(&args, "--out").unwrap(), fl, fl == "asan");
+      worker_main(prop.as_ref(), tier, seed, shard, nshards, start, arg(&args, "--out").unwrap(), fl, fl == "asan", arg(&args, "--cell"));
     }
     "replay" => {
       let path = &args[2];
